@@ -2,12 +2,13 @@
 from . import attrs_replay, core, judge
 from . import tlc as T
 
-CONFIGS = {"quick": [dict(name="attrs-1p2l", plain=("t1",), links=("l1", "l2"))],
-           "thorough": [dict(name="attrs-2p2l", plain=("t1", "t2"), links=("l1", "l2"))]}
+CONFIGS = {"quick": [dict(name="attrs-1p2l", plain=("t1",), links=("l1", "l2"), ro=()),
+                     dict(name="attrs-ro2l", plain=("t1",), links=("l1", "l2"), ro=("t1",))],
+           "thorough": [dict(name="attrs-2p2l", plain=("t1", "t2"), links=("l1", "l2"), ro=("t2",))]}
 
 
 def tlc_cfg(c):
-    return T.cfg_text({"Nil": "Nil", "NonNode": "NonNode", "MaxStack": 12, "Plain": set(c["plain"]), "Links": set(c["links"])},
+    return T.cfg_text({"Nil": "Nil", "NonNode": "NonNode", "MaxStack": 12, "Plain": set(c["plain"]), "Links": set(c["links"]), "ROPlain": T.Raw("{%s}" % ", ".join('"%s"' % x for x in c["ro"]))},
                       view="View", invariants=("Inv_Forwarding", "Inv_LinksOwnNothing", "Inv_Forest"),
                       properties=("Thm_Indep", "Thm_Write"), action_constraints=("Emit",), deadlock=False)
 
